@@ -108,6 +108,28 @@ def check_equation(lead, seq):
     return None
 
 
+def check_shared_term_objects():
+    """the same Term OBJECT added several times / to several equations: each addition counts once"""
+    for n in (2, 3, 4):
+        t = Term('y')
+        eq = Equation('v', 'd')
+        for _ in range(n):
+            eq.AddTerm(t)
+        for env in VALS:
+            got = ev(eq.GetRightHandSide(), env)
+            if not close(got, n * env['y']):
+                return 'Term object y added %d times renders %r = %r, expected %r' % (n, eq.GetRightHandSide(), got, n * env['y'])
+        if t.Constant != 1.0:
+            return 'the caller\'s Term object was modified (Constant %r)' % (t.Constant,)
+    t = Term('-x')
+    e1, e2 = Equation('a', ''), Equation('b', '')
+    e1.AddTerm(t); e2.AddTerm(t); e2.AddTerm('-x'); e2.AddTerm(t)
+    for env in VALS:
+        if not close(ev(e1.GetRightHandSide(), env), -env['x']) or not close(ev(e2.GetRightHandSide(), env), -3 * env['x']):
+            return 'Term object shared between two equations: %r, %r' % (e1.GetRightHandSide(), e2.GetRightHandSide())
+    return None
+
+
 def equation(tier, seed, **opts):
     r = Result('Equation after an optional blob lead (9 leads incl. one spelled like a later term) + every sequence of <= L AddTerm calls '
                'over 14 signed / bracketed / product terms (L = 2 quick exhaustive; L = 3 thorough exhaustive + 20000 random of length 4..7); '
@@ -117,6 +139,11 @@ def equation(tier, seed, **opts):
     seqs = [s for n in range(0, L + 1) for s in itertools.product(TERMS, repeat=n)]
     if tier != 'quick':
         seqs += [tuple(rnd.choice(TERMS) for _ in range(rnd.randint(4, 7))) for _ in range(20000)]
+    bad = check_shared_term_objects()
+    r.case(('shared Term objects',), True)
+    if bad:
+        r.fail('Equation-shared', {}, bad)
+        return r
     for lead in LEADS:
         for seq in seqs:
             texts = [Term(t).Term for t in seq]
@@ -259,7 +286,7 @@ def replay(payload):
     if payload.get('kind') == 'bounded-failure':
         nat = payload['native']
         inp = nat['input']
-        f = {'Term': lambda: check_term_string(inp['string']), 'Equation': lambda: check_equation(inp['lead'], inp['terms']),
+        f = {'Equation-shared': check_shared_term_objects, 'Term': lambda: check_term_string(inp['string']), 'Equation': lambda: check_equation(inp['lead'], inp['terms']),
              'Sector': lambda: check_sector([tuple(o) for o in inp['ops']]), 'join': lambda: check_join(inp['pieces'])}[nat['case_id']]
         bad = f()
         return {'reproduced': bool(bad), 'detail': bad, 'input': inp}
